@@ -34,8 +34,13 @@ ByzNone == {}
 ---------------------------------------------------------------------------------------------------
 (* an API that stores what was posted and hands out, for one of the credentials posted for the validator, the amounts
    that have at least threshold many distinct shares *)
-RECURSIVE AscSeq(_)
-AscSeq(X) == IF X = {} THEN <<>> ELSE LET m == CHOOSE x \in X : \A y \in X : x <= y IN <<m>> \o AscSeq(X \ {m})
+\* `deposit sign` allows exactly the amounts (whole ETH) NewMessage allows; the functions on small arguments
+ASSUME \A a \in 0..2050 : InRange(a) <=> NewMessageOK(TRUE, <<a, 0>>, Comp)
+E(a) == <<a, 0>>
+ASSUME /\ Dedup(<<E(8), E(32), E(8), E(1), <<32, -1>>>>) = <<E(1), E(8), <<32, -1>>, E(32)>> /\ Dedup(<<>>) = <<>>
+       /\ VerifyAmountsOK(<<>>, FALSE) /\ VerifyAmountsOK(<<E(1), E(31)>>, FALSE) /\ ~VerifyAmountsOK(<<E(1), <<31, -1>>>>, FALSE)
+       /\ ~VerifyAmountsOK(<<E(33)>>, FALSE) /\ VerifyAmountsOK(<<E(33)>>, TRUE) /\ ~VerifyAmountsOK(<<E(32), <<1, -1>>>>, TRUE)
+       /\ ~VerifyAmountsOK(<<<<32, 1>>>>, FALSE) /\ VerifyAmountsOK(<<<<32, 1>>>>, TRUE) /\ ~VerifyAmountsOK(<<<<2048, 1>>>>, TRUE)
 Mine(v) == {t \in produced : t.v = v /\ t.sv = v}
 SharesFor(v, w, a) == {k \in Ops : Tok(v, k, v, w, a) \in produced}
 AmtsFor(v, w) == {t.a : t \in {u \in Mine(v) : u.w = w /\ Cardinality(SharesFor(v, w, u.a)) >= T}}
